@@ -19,6 +19,7 @@ import (
 	"crypto/sha256"
 	"encoding/hex"
 	"fmt"
+	"os"
 	"runtime"
 	"runtime/debug"
 	"sort"
@@ -363,6 +364,9 @@ func (e *Explorer) confirm(t *testing.T, x *Exec, vmu *sync.Mutex) {
 		} else {
 			e.mu.Lock()
 			e.flaky["unreproducible violation "+v.Sig]++
+			if os.Getenv("VERIF_DEBUG") != "" {
+				fmt.Fprintf(os.Stderr, "UNREPRODUCIBLE %s :: %s\n  picks=%v\n  counts=%v\n  trace=%v\n", v.Sig, v.Desc, picks, count, x.Trace)
+			}
 			e.mu.Unlock()
 		}
 	}
